@@ -1,6 +1,7 @@
 """F4 instances about the collector: GC phase order, allocation rooting, heap
 accounting, sweep siblings (F10), intern funnel."""
 import re
+import collections
 from ..facts import op_place, op_local, lastseg, loc_of
 from .. import sem
 
@@ -392,7 +393,80 @@ def sweep_siblings(rec, F):
             rec.inst(R, name + ":keeps-marked", ok=ret_ok and not neg, loc=c.loc)
             if not (ret_ok and not neg):
                 rec.finding(R, "F10.sweep/%s/keep-flag" % name, "sweeper %s does not return the unmark() result as its keep flag" % name, loc=c.loc, fn=c.path)
-    rec.floor(R, "sweeper closures (%s)" % F.cfg, n, 3 if stress else 5)
+    rec.floor(R, "sweeper closures (%s)" % F.cfg, n, 1)
+    sweep_coverage(rec, F)
+
+
+HEAP_FIELDS = ("heap", "obj_heap", "nursery_obj_heap")
+
+
+def _recv_heap_field(fn, t, depth=0):
+    """the Allocator heap field an iterator/retain chain is rooted at (receiver of call t)"""
+    if depth > 6 or not t["args"]:
+        return None
+    r = fn.root_of(t["args"][0])
+    if r[0] == "place":
+        for e in r[1]["p"]:
+            if e[0] == "field" and e[2] in HEAP_FIELDS and e[3] == ALLOC:
+                return e[2]
+        return None
+    if r[0] == "call":
+        return _recv_heap_field(fn, r[1], depth + 1)
+    return None
+
+
+def _must_sweep(F, fn, memo, stack=()):
+    """heap fields that are unmarked (through a sweeper closure over that field) on every
+    path from entry to return of Allocator method fn; follows Allocator callees."""
+    if fn.path in memo:
+        return memo[fn.path]
+    if fn.path in stack:
+        return set()
+    clos = sem.closure_paths_in(fn)
+    per_block = collections.defaultdict(set)
+    for bi, t in fn.calls():
+        for cp in sem.closure_args_of_call(fn, t, clos):
+            c = F.fn(cp)
+            if c is not None and any(lastseg(x.get("decl", x["f"])) == "unmark" for _, x in c.calls()):
+                f = _recv_heap_field(fn, t)
+                if f:
+                    per_block[bi].add(f)
+        if t["f"].startswith(ALLOC + "::") and t["f"] != fn.path:
+            g = F.fn(t["f"])
+            if g is not None and g.kind != "Closure":
+                per_block[bi] |= _must_sweep(F, g, memo, stack + (fn.path,))
+    rets = [b for b in fn.reachable if fn.blocks[b]["t"]["k"] == "return"]
+    out = set()
+    for f in HEAP_FIELDS:
+        blocks = {b for b, fs in per_block.items() if f in fs}
+        if blocks and rets and not any(0 not in blocks and sem.reaches(fn, 0, r, avoid=blocks) for r in rets):
+            out.add(f)
+    memo[fn.path] = out
+    return out
+
+
+def sweep_coverage(rec, F):
+    """Every collection unmarks every heap: the sweep calls of collect_garbage together, on every
+    path, run a sweeper closure over each of heap / obj_heap / nursery_obj_heap. (An object left
+    marked is never freed again; an unswept heap keeps its garbage and its bytes are not counted.)"""
+    R = rec.rule("F10.sweep-cover", "the sweeps dispatched by collect_garbage run an unmarking closure over every Allocator heap (heap, obj_heap, nursery_obj_heap) on every path")
+    cg = [f for f in F.all_fns() if f.path == ALLOC + "::collect_garbage"]
+    if not cg:
+        rec.anchor_lost("F10.sweep-cover", "Allocator::collect_garbage")
+        return
+    memo = {}
+    for fn in cg[:1]:
+        got = set()
+        for bi, t in fn.calls():
+            if t["f"].startswith(ALLOC + "::sweep_") and not t["f"].endswith("::sweep_intern_cache"):
+                g = F.fn(t["f"])
+                if g is not None:
+                    got |= _must_sweep(F, g, memo)
+        for f in HEAP_FIELDS:
+            ok = f in got
+            rec.inst(R, "collect_garbage:sweeps:%s" % f, ok=ok, loc=fn.loc)
+            if not ok:
+                rec.finding(R, "F10.sweep-cover/%s" % f, "a collection can finish without unmarking Allocator.%s (objects there stay marked: never freed, and their bytes leave the accounting)" % f, loc=fn.loc, fn=fn.path)
 
 
 # ---------------------------------------------------------------------------
